@@ -286,7 +286,7 @@ def round_(number, num_digits=0):
         # and https://gist.github.com/ejamesc/cedc886c5f36e2d075c5
 
     else:
-        return round(number, num_digits)
+        return _round(number, num_digits, rounding=ROUND_HALF_UP)
 
 
 def _round(number, num_digits, rounding):
